@@ -259,6 +259,35 @@ func runC19(e *Engine, r *Report, tier string) {
 					}
 				}
 			}
+			if !okHex {
+				// path-consistent form: with repeated tests of one boolean correlated, every success path that performs the
+				// conversion has the hex flag true (no dominating guard needed)
+				if paths, loop := successPaths(fn); !loop && len(paths) > 0 {
+					all, any := true, false
+					for _, p := range paths {
+						has := false
+						for _, c := range p.Calls {
+							if c == conv {
+								has = true
+							}
+						}
+						if !has {
+							continue
+						}
+						any = true
+						hex := false
+						for a, v := range p.Atoms {
+							if strings.HasPrefix(a, "ok:ParseAddress(") && v {
+								hex = true
+							}
+						}
+						if !hex {
+							all = false
+						}
+					}
+					okHex = any && all
+				}
+			}
 			r.Check(okDenom, "R3", e.FnKey(fn)+" denom-guard", e.InstrPos(conv), "conversion only for non-FX denoms", "inbound conversion is not restricted to non-native denoms")
 			r.Check(okHex, "R3", e.FnKey(fn)+" hex-guard", e.InstrPos(conv), "non-hex receiver -> error before conversion", "a bech32 receiver's coins are converted to ERC-20 (or the hex test no longer fails the packet)")
 			ok, _ := errorHandled(conv)
